@@ -146,6 +146,8 @@ pub enum Adv {
     OversizedPacket,
     /// produced internally: a PUBCOMP that may or may not be premature
     PubcompGuess,
+    /// a well-formed packet that only a client may send (CONNECT, SUBSCRIBE, UNSUBSCRIBE, PINGREQ)
+    ClientOnlyPacket,
 }
 
 #[derive(Clone, Copy, Debug, Serialize, Deserialize, PartialEq, Eq)]
